@@ -147,14 +147,16 @@ theorem renderGlyph_full (w0 h0 : Nat) (f : Font) (rows : List Nat) (fgc bgc bgc
 
 /-! ### the font condition -/
 
-/-- what the optimiser needs from a font: at most 8 columns (so `count_ones` counts only columns that are
-    rendered and `128 >> cx` cannot overflow), every glyph has `height` data bytes, a glyph whose bit count is
-    width·height has every in-range bit set, and the glyph of `' '` (the normalisation target) is blank -/
+/-- what the optimiser needs from a font: every glyph has `height` data bytes (so a blank glyph and the blank `' '`
+    paint the same rows), a NON-BLANK glyph whose bit count is width·height belongs to a font of at most 8 columns
+    (so `count_ones` counts rendered columns only and `128 >> cx` cannot overflow on them) and has every in-range bit
+    set, and the glyph of `' '` (the normalisation target) is blank whenever the font has a blank glyph at all.  Fonts wider than 8 columns satisfy the second
+    clause vacuously (`wide_font_never_block`), 8-column fonts automatically (`eight_wide_block_full`). -/
 structure FontOk (f : Font) : Prop where
-  width_le : f.w ≤ 8
   rows_len : ∀ ch rows, f.glyph ch = some rows → rows.length = f.h
-  block_full : ∀ ch rows, f.glyph ch = some rows → ones rows = f.w * f.h → isFull f.w f.h rows = true
-  space_blank : ∀ rows, f.glyph spaceCh = some rows → ones rows = 0
+  block_full : ∀ ch rows, f.glyph ch = some rows → ones rows ≠ 0 → ones rows = f.w * f.h →
+    f.w ≤ 8 ∧ isFull f.w f.h rows = true
+  space_blank : ∀ ch rows rows', f.glyph ch = some rows → ones rows = 0 → f.glyph spaceCh = some rows' → ones rows' = 0
 
 /-- list traversal of a regenerated summary: every glyph has `h` bytes and "count = w·h ⇒ full" -/
 def glyphSumOk (w h : Nat) : List Nat → List Nat → List Nat → Bool
@@ -203,18 +205,19 @@ theorem fontOk_of_summary {f : Font} {s : FontSum} (hs : Summarizes f s) (hok : 
   unfold SummaryOk at hok
   simp only [Bool.and_eq_true, decide_eq_true_eq] at hok
   obtain ⟨⟨hle, hsum⟩, hsp⟩ := hok
-  refine ⟨by omega, ?_, ?_, ?_⟩
+  refine ⟨?_, ?_, ?_⟩
   · intro ch rows hgl
     obtain ⟨h1, h2, h3⟩ := hg ch rows hgl
     have := (glyphSumOk_get hsum h1 h2 h3).1
     omega
-  · intro ch rows hgl hones
+  · intro ch rows hgl _ hones
     obtain ⟨h1, h2, h3⟩ := hg ch rows hgl
     have := (glyphSumOk_get hsum h1 h2 h3).2 (by rw [hones, hw, hh])
+    refine ⟨by omega, ?_⟩
     by_cases hfull : isFull f.w f.h rows = true
     · exact hfull
     · simp [hfull] at this
-  · intro rows hgl
+  · intro _ _ rows _ _ hgl
     obtain ⟨_, h2, _⟩ := hg spaceCh rows hgl
     rw [h2] at hsp
     simpa using hsp
@@ -249,62 +252,43 @@ theorem renderCell_full (fonts : Nat → Option Font) (pal : Nat → Rgb) (w0 h0
   rw [this]
   exact renderGlyph_full w0 h0 f rows _ _ _ hw hfull
 
-/-! ### `make_solid_color` only touches colours that are TRANSPARENT_COLOR -/
+/-! ### what `flat_clone(false)` stores and what `Buffer::get_char` of the clone shows -/
 
-theorem makeSolid_ch (hb) (t u : Cell) : (makeSolid hb t u).ch = t.ch := by
-  unfold makeSolid
-  split
-  · rfl
-  · split <;> rfl
-theorem makeSolid_page (hb) (t u : Cell) : (makeSolid hb t u).attr.page = t.attr.page := by
-  unfold makeSolid
-  split
-  · rfl
-  · split <;> rfl
-theorem makeSolid_flags (hb) (t u : Cell) : (makeSolid hb t u).attr.flags = t.attr.flags := by
-  unfold makeSolid
-  split
-  · rfl
-  · split <;> rfl
-theorem makeSolid_fg (hb) (t u : Cell) (h : t.attr.fg ≠ IcyVerif.Gen.Comp.transparentColor) :
-    (makeSolid hb t u).attr.fg = t.attr.fg := by
-  unfold makeSolid
-  split
-  · simp [h]
-  · split <;> simp [h]
-theorem makeSolid_bg (hb) (t u : Cell) (h : t.attr.bg ≠ IcyVerif.Gen.Comp.transparentColor) :
-    (makeSolid hb t u).attr.bg = t.attr.bg := by
-  unfold makeSolid
-  split
-  · simp [h]
-  · split <;> simp [h]
+theorem flatStore_visible (c : Cell) : (flatStore c).isVisible = true := by
+  unfold flatStore
+  by_cases h : c.isVisible = true
+  · simp only [h, if_true]
+  · have h' : c.isVisible = false := by cases hc : c.isVisible <;> simp_all
+    simp only [h', Bool.false_eq_true, if_false]
+    have a : (defaultCell.withPage c.attr.page).isVisible = defaultCell.isVisible := rfl
+    rw [a]; decide
 
-theorem flatView_ch (hb) (c : Cell) (hv : c.isVisible = true) : (flatView hb c).ch = c.ch := by
-  unfold flatView; rw [hv]; simp only [if_true]
-  split
-  · exact makeSolid_ch hb c _
-  · rfl
-theorem flatView_page (hb) (c : Cell) (hv : c.isVisible = true) : (flatView hb c).attr.page = c.attr.page := by
-  unfold flatView; rw [hv]; simp only [if_true]
-  split
-  · exact makeSolid_page hb c _
-  · rfl
-theorem flatView_flags (hb) (c : Cell) (hv : c.isVisible = true) : (flatView hb c).attr.flags = c.attr.flags := by
-  unfold flatView; rw [hv]; simp only [if_true]
-  split
-  · exact makeSolid_flags hb c _
-  · rfl
-theorem flatView_fg (hb) (c : Cell) (hv : c.isVisible = true) (h : c.attr.fg ≠ IcyVerif.Gen.Comp.transparentColor) :
-    (flatView hb c).attr.fg = c.attr.fg := by
-  unfold flatView; rw [hv]; simp only [if_true]
-  split
-  · exact makeSolid_fg hb c _ h
-  · rfl
-theorem flatView_bg (hb) (c : Cell) (hv : c.isVisible = true) (h : c.attr.bg ≠ IcyVerif.Gen.Comp.transparentColor) :
-    (flatView hb c).attr.bg = c.attr.bg := by
-  unfold flatView; rw [hv]; simp only [if_true]
-  split
-  · exact makeSolid_bg hb c _ h
-  · rfl
+theorem flatStore_of_visible {c : Cell} (h : c.isVisible = true) : flatStore c = c := by
+  unfold flatStore; simp only [h, if_true]
+
+theorem flatStore_invisible (p : Nat) : flatStore (invisibleCell.withPage p) = defaultCell.withPage p := by
+  unfold flatStore
+  have : (invisibleCell.withPage p).isVisible = false := by
+    have a : (invisibleCell.withPage p).isVisible = invisibleCell.isVisible := rfl
+    rw [a]; decide
+  simp only [this, Bool.false_eq_true, if_false]
+  rfl
+
+theorem flatView_of_visible (t : Bool) {c : Cell} (h : c.isVisible = true) : flatView t c = c := by
+  unfold flatView; simp only [h, if_true]
+
+/-- a default blank on page `p` renders exactly like `AttributedChar::invisible()` on page `p`
+    (same character, colours 7 on 0, not bold) -/
+theorem renderCell_default_invisible (fonts : Nat → Option Font) (pal : Nat → Rgb) (w0 h0 p : Nat) :
+    renderCell fonts pal w0 h0 (defaultCell.withPage p) = renderCell fonts pal w0 h0 (invisibleCell.withPage p) := by
+  unfold renderCell
+  have h1 : (defaultCell.withPage p).attr.page = (invisibleCell.withPage p).attr.page := rfl
+  have h2 : (defaultCell.withPage p).ch = (invisibleCell.withPage p).ch := rfl
+  have h3 : renderFg (defaultCell.withPage p) = renderFg (invisibleCell.withPage p) := by
+    have a : renderFg (defaultCell.withPage p) = renderFg defaultCell := rfl
+    have b : renderFg (invisibleCell.withPage p) = renderFg invisibleCell := rfl
+    rw [a, b]; decide
+  have h4 : (defaultCell.withPage p).attr.bg = (invisibleCell.withPage p).attr.bg := rfl
+  rw [h1, h2, h3, h4]
 
 end IcyVerif.ColorOpt
